@@ -8,6 +8,7 @@ import (
 	"sync/atomic"
 
 	biscuit "github.com/biscuit-auth/biscuit-go/v2"
+	"github.com/biscuit-auth/biscuit-go/v2/datalog"
 
 	"verif/internal/hx"
 	"verif/internal/refdl"
@@ -253,6 +254,9 @@ type c08World struct {
 	builders []biscuit.BlockBuilder
 	blocks   []*biscuit.Block
 	born     []string // observation of each token when it was created
+	// one decoder value for the whole history, as a service would keep one around (the
+	// observation tuple reloads with the package-level Unmarshal)
+	decoder *biscuit.Unmarshaler
 }
 
 var c08Panel = []c09Panel{
@@ -325,7 +329,7 @@ type c08Fail struct {
 // otherwise only once at the end.
 func c08Replay(h []c08Op, observeEvery bool) (*c08Model, *c08Fail) {
 	m := &c08Model{}
-	wd := &c08World{}
+	wd := &c08World{decoder: &biscuit.Unmarshaler{Symbols: &datalog.SymbolTable{}}}
 	_, priv := hx.Keys(1)
 	pub, _ := hx.Keys(1)
 	_ = pub
@@ -361,7 +365,7 @@ func c08Replay(h []c08Op, observeEvery bool) (*c08Model, *c08Fail) {
 			var ser []byte
 			ser, err = wd.toks[o.A].Serialize()
 			if err == nil {
-				nt, err = biscuit.Unmarshal(ser)
+				nt, err = wd.decoder.Unmarshal(ser)
 			}
 		}
 		if err != nil {
@@ -567,6 +571,7 @@ func init() {
 			return []*sup.Space{
 				{Name: "family-bfs-observe-after-every-step", RunAll: func(c *sup.Ctx) { c08Search(c, "family-bfs-observe-after-every-step", depth, true) }, ReplayCase: replayMode(true)},
 				{Name: "family-bfs-observe-at-end", RunAll: func(c *sup.Ctx) { c08Search(c, "family-bfs-observe-at-end", depth-1, false) }, ReplayCase: replayMode(false)},
+				c08SiblingSpace(replayMode(false)),
 			}
 		},
 	})
